@@ -644,7 +644,8 @@ class Inliner:
         methods = {}
         for s in cd.body:
             if isinstance(s, ast.FunctionDef):
-                if s.decorator_list or s.args.vararg or s.args.kwarg or not s.args.args or _has(s, (ast.Yield, ast.YieldFrom, ast.Global, ast.Nonlocal)):
+                static = [ast.unparse(d) for d in s.decorator_list] == ["staticmethod"]
+                if (s.decorator_list and not static) or s.args.vararg or s.args.kwarg or (not s.args.args and not static) or _has(s, (ast.Yield, ast.YieldFrom, ast.Global, ast.Nonlocal)):
                     return None
                 if s.name.startswith("__") and s.name.endswith("__") and s.name not in self.DUNDER_OK:
                     return None
@@ -656,6 +657,8 @@ class Inliner:
             else:
                 return None
         for m in methods.values():
+            if m.decorator_list:
+                continue  # a static method: no object to speak of
             sp = m.args.args[0].arg
             bare = 0
             for n in ast.walk(m):
@@ -773,6 +776,8 @@ class Inliner:
                 if m_ in named:
                     continue
                 named[m_] = methods[m_]
+                if methods[m_].decorator_list:
+                    continue
                 sp_ = methods[m_].args.args[0].arg
                 todo += [a.attr for a in ast.walk(methods[m_]) if isinstance(a, ast.Attribute) and isinstance(a.value, ast.Name) and a.value.id == sp_ and a.attr in methods]
             if any(n_.startswith("__") for n_ in named):
@@ -780,7 +785,7 @@ class Inliner:
             taken0 = {n.id for n in ast.walk(trial) if isinstance(n, ast.Name)} | {a.arg for a in ast.walk(trial) if isinstance(a, ast.arg)} | {f.name for f in ast.walk(trial) if isinstance(f, ast.FunctionDef)}
             if any(n_ in taken0 for n_ in named):
                 continue
-            all_attrs = {a.attr for a in attrs} | {a.attr for m_ in list(named.values()) + [methods[k] for k in ("__init__", "__enter__", "__exit__") if k in methods]
+            all_attrs = {a.attr for a in attrs} | {a.attr for m_ in list(named.values()) + [methods[k] for k in ("__init__", "__enter__", "__exit__") if k in methods] if not m_.decorator_list
                                                      for a in ast.walk(m_) if isinstance(a, ast.Attribute) and isinstance(a.value, ast.Name) and a.value.id == m_.args.args[0].arg}
             fieldnames = {}
             for f_ in sorted(all_attrs - set(methods)):
@@ -790,7 +795,7 @@ class Inliner:
                 fieldnames[f_] = nm
             defs = []
             for n_, m_ in named.items():
-                sp_ = m_.args.args[0].arg
+                sp_ = m_.args.args[0].arg if not m_.decorator_list else "\0none"
                 body_ = copy.deepcopy(m_.body)
 
                 class G(ast.NodeTransformer):
@@ -805,7 +810,8 @@ class Inliner:
                 if st_:
                     body_.insert(0, ast.Nonlocal(names=st_))
                 args_ = copy.deepcopy(m_.args)
-                args_.args = args_.args[1:]
+                if not m_.decorator_list:
+                    args_.args = args_.args[1:]
                 fd_ = ast.FunctionDef(name=n_, args=args_, body=body_, decorator_list=[], returns=None, type_comment=None, type_params=[])
                 defs.append(ast.fix_missing_locations(ast.copy_location(fd_, m_)))
             if defs:
@@ -1808,6 +1814,18 @@ def normalize_package(trees, known=None, passes=None):
             known = load_known()
         inl = Inliner(trees, known)
         stats["inline"] = inl.run()
+        if on(6) and (stats["inline"].get("dissolved") or stats["inline"].get("closures") or stats["inline"].get("specialised")):
+            # dissolved objects leave aliases of their methods behind (`match = self._match`): resolve them and unfold once more
+            for mn, t in trees.items():
+                for q, fn, cls, func in qualnames(t, mn):
+                    explain_vars(fn)
+            inl2 = Inliner(trees, known)
+            st2 = inl2.run()
+            stats["inline"]["inlined"] += st2["inlined"]
+            stats["inline"]["sites"] += st2["sites"]
+            for k_ in ("dropped", "dissolved", "closures", "with", "specialised"):
+                if st2.get(k_):
+                    stats["inline"].setdefault(k_, []).extend(st2[k_])
     for mn, t in trees.items():
         if on(6):
             for q, fn, cls, func in qualnames(t, mn):
